@@ -317,9 +317,23 @@ def check_subs(ctx: core.Ctx, g: GenInfo):
         got: Dict[Any, str] = {}
         dt_ok = None
         bad = []
+        local_defs: Dict[str, List[ast.AST]] = {}
         for a in ast.walk(fn):
-            if isinstance(a, ast.Assign) and len(a.targets) == 1 and ast.unparse(a.targets[0]) in subs_names:
-                for comp in ast.walk(a.value):
+            if isinstance(a, ast.Assign) and len(a.targets) == 1 and isinstance(a.targets[0], ast.Name):
+                local_defs.setdefault(a.targets[0].id, []).append(a.value)
+
+        def parts_of(e, depth=0):
+            """flatten `a + b + c`, resolving single-assignment local names"""
+            if isinstance(e, ast.BinOp) and isinstance(e.op, ast.Add):
+                return parts_of(e.left, depth) + parts_of(e.right, depth)
+            if isinstance(e, ast.Name) and depth < 4 and len(local_defs.get(e.id, [])) == 1:
+                return parts_of(local_defs[e.id][0], depth + 1)
+            if isinstance(e, ast.Call) and isinstance(e.func, ast.Name) and e.func.id == "list" and len(e.args) == 1:
+                return parts_of(e.args[0], depth)
+            return [e]
+        for sname in subs_names:
+            for v in local_defs.get(sname, []):
+                for comp in parts_of(v):
                     if isinstance(comp, ast.ListComp):
                         lay = iter_lay.get(id(comp))
                         role = lay.segs[0][1] if lay is not None and len(lay.segs) == 1 and lay.segs[0][0] == "SORT" else None
@@ -331,7 +345,7 @@ def check_subs(ctx: core.Ctx, g: GenInfo):
                                 if isinstance(s2, ast.Constant) and isinstance(s2.value, str) and "{}" in s2.value:
                                     pref = s2.value
                                 if isinstance(s2, ast.JoinedStr):
-                                    pref = "".join(v.value if isinstance(v, ast.Constant) else "{}" for v in s2.values)
+                                    pref = "".join(v2.value if isinstance(v2, ast.Constant) else "{}" for v2 in s2.values)
                         if role is None or pref is None:
                             bad.append(ast.unparse(comp)[:80])
                         else:
@@ -341,8 +355,16 @@ def check_subs(ctx: core.Ctx, g: GenInfo):
                         if isinstance(src, ast.Attribute) and src.attr == "dt":
                             dt_ok = isinstance(dst, ast.Call) and ast.unparse(dst.func) == "Symbol" and len(dst.args) == 1 \
                                 and isinstance(dst.args[0], ast.Constant) and dst.args[0].value == dtname
-        for b in bad:
-            ctx.error(f"{where}: substitution entry `{b}` not understood")
+                        else:
+                            bad.append(ast.unparse(comp)[:80])
+                    elif isinstance(comp, ast.List) and not comp.elts:
+                        pass
+                    else:
+                        bad.append(ast.unparse(comp)[:80])
+        if bad:
+            for b in bad:
+                ctx.error(f"{where}: substitution entry `{b}` is not an enumerated idiom")
+            continue
         n += 1
         wantfmt = {r: p + "{}()" for r, p in want.items()}
         ctx.oblige("SUBS", where, f"substitutes {got}", got == wantfmt, file=CPPF, func=f"{cls}.{fname}", construct="subs_set roles/prefixes",
